@@ -712,6 +712,54 @@ def tuplearg_family(pmax):
             mk_fuse(3, "p", pmax, opts=((0, None, True),))]
 
 
+def mk_two_chains(fn):
+    """two linear chains whose fused names coincide under the default renamer ('a' -> 'b' -> 'c' and 'a-1' -> 'b-c' are both called
+    'a-b-c') feeding one sink; symbolic leaves; the dict order (which chain is visited first, where the sink sits, chains listed
+    forwards or backwards) is solver-enumerated"""
+    spec = fn == "fuse_linear_task_spec"
+    C1, C2 = ["a", "b", "c"], ["a-1", "b-c"]
+
+    def setup(e):
+        first = e.flag("second_chain_first")
+        rev = e.flag("chains_listed_backwards")
+        sink_pos = e.choice("sink_position", 3)
+        va = e.int("va", *((None, None) if spec else (0, 1)))
+        vb = va + 10
+        req_mid = e.flag("request_chain_tops")
+        return first, rev, sink_pos, va, vb, req_mid
+
+    def build(first, rev, sink_pos, va, vb):
+        inc = FUNCS[1]
+        add = FUNCS[2]
+        if spec:
+            n = {"a": DataNode("a", va), "b": Task("b", inc, TaskRef("a")), "c": Task("c", inc, TaskRef("b")),
+                 "a-1": DataNode("a-1", vb), "b-c": Task("b-c", inc, TaskRef("a-1")), "t": Task("t", add, TaskRef("c"), TaskRef("b-c"))}
+        else:
+            n = {"a": va, "b": (inc, "a"), "c": (inc, "b"), "a-1": vb, "b-c": (inc, "a-1"), "t": (add, "c", "b-c")}
+        c1, c2 = (C1[::-1], C2[::-1]) if rev else (C1, C2)
+        order = (c2 + c1) if first else (c1 + c2)
+        order.insert([0, len(order) // 2, len(order)][sink_pos], "t")
+        return {k: n[k] for k in order}
+
+    def run(e, first, rev, sink_pos, va, vb, req_mid):
+        dsk = build(first, rev, sink_pos, va, vb)
+        keys = ["t"] + (["c", "b-c"] if req_mid else [])
+        if fn == "fuse_linear_task_spec":
+            new, deps = TS.fuse_linear_task_spec(dsk, keys), None
+        elif fn == "fuse_linear":
+            new, deps = O.fuse_linear(dsk, keys=keys, rename_keys=True)
+        else:
+            new, deps = O.fuse(dsk, keys=keys, ave_width=1, rename_keys=True)
+        want = C.get(dsk, keys)
+        for k in keys:
+            e.check(k in new, f"{fn}: requested key {k!r} is missing from the returned graph")
+        got = C.get(new, keys)
+        e.check(lambda: e.equal(list(got), list(want)), f"{fn}: two chains whose fused names coincide changed the requested values")
+        return sorted(map(repr, new)), list(got), check_depmap(e, new, deps, fn)
+
+    return Obligation(f"two_chains_same_name[{fn}]", setup, run, patches=_fuse_patches if fn == "fuse" else None)
+
+
 def obligations(tier):
     obs = []
     if tier in ("quick", "thorough"):
@@ -730,6 +778,7 @@ def obligations(tier):
         obs.append(mk_node_fuse(3, "TN"))
         obs.append(mk_substitute(3, "TLN"))
         obs += [mk_name_clash(fn) for fn in ("fuse_linear", "fuse", "fuse_linear_task_spec")]
+        obs += [mk_two_chains(fn) for fn in ("fuse_linear", "fuse", "fuse_linear_task_spec")]
         obs += tuplearg_family(4)
     if tier == "thorough":
         D4 = {0: "d", 1: "t", 2: "t", 3: "t", 4: "t"}
